@@ -62,6 +62,111 @@ FS_THOROUGH = [
 ]
 
 
+class SSCfg:
+    """SmallSet configuration: SetA = SmallSet<E, n, cmp, alloc, backing>; SetB = SmallSet<E, nb, cmp2, alloc, same backing family>."""
+
+    def __init__(self, elem, n, cmp_, nb, cmp2, backing, alloc="exact", std="c++17", compiler="g++"):
+        self.elem, self.n, self.cmp, self.nb, self.cmp2, self.backing, self.alloc, self.std, self.compiler = elem, n, cmp_, nb, cmp2, backing, alloc, std, compiler
+        self.name = "ss_%s_%d%s_%d%s_%s_%s_%s_%s" % (elem, n, cmp_, nb, cmp2, backing, alloc, std.replace("c++", "cxx"), "gcc" if compiler == "g++" else "clang")
+
+    def set_expr(self, n, c):
+        e = vec.ELEMS[self.elem]
+        a = vec.alloc_expr(self.alloc, e)
+        if self.backing == "set":
+            return "amc::SmallSet<%s, %d, %s, %s>" % (e, n, c, a)
+        return "amc::SmallSet<%s, %d, %s, %s, amc::FlatSet<%s, %s, %s> >" % (e, n, c, a, e, c, a)
+
+    def source(self):
+        e = vec.ELEMS[self.elem]
+        return ('#define VF_CFG_NAME "%s"\n#include <amc/smallset.hpp>\n#include <amc/flatset.hpp>\n#include "mon/cmp.hpp"\n#include "mon/alloc.hpp"\n'
+                'using Elem = %s;\nusing SetA = %s;\nusing SetB = %s;\n#include "smallset_main.hpp"\n') % (
+                    self.name, e, self.set_expr(self.n, CMPS[self.cmp]), self.set_expr(self.nb, CMPS[self.cmp2]))
+
+    def spec(self):
+        return {"name": self.name, "source": self.source(), "std": self.std, "compiler": self.compiler, "extra": ["-DAMC_NONSTD_FEATURES"]}
+
+
+# complete small-scope state space: N in {1,2,3}, both backing sets
+SS_SPACE_QUICK = [
+    SSCfg("NTR", 1, "less", 2, "greater", "set"),
+    SSCfg("TR", 2, "less", 3, "less", "set", "basic"),
+    SSCfg("TC4", 3, "stateful", 1, "less", "set", "amc"),
+    SSCfg("TR", 1, "greater", 3, "coarse", "flat", "basic"),
+    SSCfg("NTR", 2, "stateful", 1, "less", "flat"),
+    SSCfg("TC4", 3, "less", 2, "greater", "flat", "amc"),
+]
+SS_SPACE_THOROUGH = [
+    SSCfg("NTR", 3, "coarse", 2, "less", "set"),
+    SSCfg("TR", 3, "less", 3, "greater", "flat", "realloc"),
+    SSCfg("NTR", 2, "less", 3, "less", "set", std="c++20"),
+    SSCfg("NTR", 2, "less", 2, "greater", "flat", std="c++20"),
+    SSCfg("TR", 1, "stateful", 2, "stateful", "set", "std"),
+    SSCfg("NTR", 2, "greater", 3, "less", "set", compiler="clang++-14"),
+    SSCfg("TR", 2, "less", 1, "coarse", "flat", "basic", compiler="clang++-14"),
+]
+# random histories beyond
+SS_HIST_QUICK = [
+    SSCfg("NTR", 4, "less", 8, "greater", "set"),
+    SSCfg("TR", 8, "stateful", 4, "less", "set", "basic"),
+    SSCfg("TC4", 4, "coarse", 6, "less", "set", "amc"),
+    SSCfg("NTR", 4, "greater", 2, "less", "flat", "basic"),
+    SSCfg("TR", 8, "less", 4, "coarse", "flat", "realloc"),
+    SSCfg("TC12", 4, "stateful", 8, "stateful", "flat", "std"),
+]
+SS_HIST_THOROUGH = [
+    SSCfg("NTR", 8, "coarse", 4, "greater", "flat"),
+    SSCfg("TR", 4, "tless", 8, "less", "set", "exact"),
+    SSCfg("NTR", 4, "less", 8, "less", "set", std="c++20"),
+    SSCfg("TR", 4, "stateful", 3, "greater", "flat", "basic", std="c++20"),
+    SSCfg("NTR", 6, "less", 4, "greater", "set", compiler="clang++-14"),
+]
+
+
+def run_space(prop, tier, crash_owners):
+    """complete small-scope exploration: the edge range of each configuration is split over the workers"""
+    cfgs = SS_SPACE_QUICK + (SS_SPACE_THOROUGH if tier == "thorough" else [])
+    bins = core.build_many([c.spec() for c in cfgs])
+    # edges are numbered by the engine itself; an upper bound is enough (the engine clamps)
+    EDGES = 400000
+    k = max(1, round(2.0 * core.NCPU / len(cfgs)))
+    jobs = []
+    for c in cfgs:
+        step = -(-EDGES // k)
+        lo = 0
+        while lo < EDGES:
+            jobs.append((c, lo, min(EDGES, lo + step)))
+            lo += step
+    results = []
+    with cf.ThreadPoolExecutor(max_workers=core.NCPU) as ex:
+        futs = [ex.submit(core.run_history_range, bins[c.name], c.name, core.SEED, lo, hi, ["--space"], 1800, 6) for (c, lo, hi) in jobs]
+        for f in futs:
+            results.append(f.result())
+    old = vec.CRASH_OWNERS
+    vec.CRASH_OWNERS = set(crash_owners)
+    try:
+        cov, viols, inc = vec.aggregate(prop, results, ["--space"])
+    finally:
+        vec.CRASH_OWNERS = old
+    states = trans = pairs = 0
+    per_cfg = {}
+    for r in results:
+        for s in r["summaries"]:
+            cn = s.get("counters", {})
+            d = per_cfg.setdefault(r["cfg"], {"states": 0, "transitions": 0, "pair_transitions": 0, "total_edges": 0})
+            d["states"] = max(d["states"], cn.get("states_A", 0))
+            d["total_edges"] = max(d["total_edges"], cn.get("total_edges", 0))
+            d["transitions"] += cn.get("transitions", 0)
+            d["pair_transitions"] += cn.get("pair_transitions", 0)
+    for d in per_cfg.values():
+        states += d["states"]
+        trans += d["transitions"] + d["pair_transitions"]
+    cov["states"] = states
+    cov["transitions"] = trans
+    cov["per_configuration"] = per_cfg
+    cov["exhaustive"] = all(d["total_edges"] > 0 and d["transitions"] + d["pair_transitions"] == d["total_edges"] for d in per_cfg.values()) and not viols
+    return cov, viols, inc
+
+
 def run_engine(prop, tier, cfgs, hist_quick, hist_thorough, ops=60, extra_args=(), crash_owners=("C03", "C02")):
     bins = core.build_many([c.spec() for c in cfgs])
     nh = hist_quick if tier == "quick" else hist_thorough
